@@ -60,7 +60,7 @@ Section Pass.
 
     Lemma inner_fold : forall terms results pruned,
       (forall x, In x terms -> Inv (reduce x) /\ count (reduce x) < k) ->
-      exists r' p', fold_left (inner_step G reduce is_zero rec) terms (Some (results, pruned)) = Some (results ++ r', pruned ++ p') /\
+      exists r' p', fold_left (inner_step G count replace reduce is_zero rec) terms (Some (results, pruned)) = Some (results ++ r', pruned ++ p') /\
         (forall rho, vs rho r' = vs rho terms) /\
         (terms <> [] -> results ++ r' <> []) /\
         Forall (fun x => forall rho, val rho x = vzero) p' /\
@@ -168,7 +168,7 @@ Section Mono.
   Variable reduce : G -> G.
   Variable is_zero : G -> bool.
 
-  Lemma inner_fold_none : forall rec terms, fold_left (inner_step G reduce is_zero rec) terms None = None.
+  Lemma inner_fold_none : forall rec terms, fold_left (inner_step G count replace reduce is_zero rec) terms None = None.
   Proof. intros rec terms. induction terms as [|x terms IH]; [reflexivity | exact IH]. Qed.
   Lemma outer_fold_none : forall rec graphs, fold_left (outer_step G count replace reduce is_zero rec) graphs None = None.
   Proof. intros rec graphs. induction graphs as [|x graphs IH]; [reflexivity | exact IH]. Qed.
@@ -177,7 +177,7 @@ Section Mono.
     Variables rec rec' : list G -> dstate G.
     Hypothesis Hrec : forall l s, rec l = Some s -> rec' l = Some s.
     Lemma inner_mono : forall terms st s,
-      fold_left (inner_step G reduce is_zero rec) terms st = Some s -> fold_left (inner_step G reduce is_zero rec') terms st = Some s.
+      fold_left (inner_step G count replace reduce is_zero rec) terms st = Some s -> fold_left (inner_step G count replace reduce is_zero rec') terms st = Some s.
     Proof.
       induction terms as [|x terms IH]; intros st s H; [exact H|].
       cbn [fold_left] in H |- *.
@@ -197,7 +197,7 @@ Section Mono.
       destruct st as [[results pruned]|]; [|cbn [outer_step] in H; rewrite outer_fold_none in H; discriminate].
       unfold outer_step at 2 in H. unfold outer_step at 2.
       match type of H with context [if ?c then _ else _] => destruct c end; [apply IH; exact H|].
-      destruct (fold_left (inner_step G reduce is_zero rec) (replace g) (Some (results, pruned))) as [s1|] eqn:E.
+      destruct (fold_left (inner_step G count replace reduce is_zero rec) (replace g) (Some (results, pruned))) as [s1|] eqn:E.
       - rewrite (inner_mono _ _ _ E). apply IH. exact H.
       - rewrite outer_fold_none in H. discriminate.
     Qed.
